@@ -814,6 +814,8 @@ func (dru *dirRepoUpload) closeFile() (bool, error) {
 	dru.mu.Lock()
 	defer dru.mu.Unlock()
 	err := dru.fh.Close()
+	// a request that still writes to this session (a second connection of the client) finds the writer closed
+	dru.w = nil
 	if err != nil {
 		return false, errors.Join(err, os.Remove(dru.filename))
 	}
